@@ -694,6 +694,16 @@ def batch_facet(ctx, workdir):
             s = fac()
             s.sample(n, batch_size=b, sample_path=path)
         chain = _cols(s.get_samples().samples)
+        # the reference is the same run WITHOUT batches (same seed): writing batches to disk changes nothing in the chain
+        with zoo.quiet():
+            np.random.seed(11)
+            ref = fac()
+            ref.sample(n)
+        ref_chain = _cols(ref.get_samples().samples)
+        if chain.shape != ref_chain.shape or not np.array_equal(chain, ref_chain):
+            ctx.mismatch("batch/b=%d/chain" % b, dict(c), "with batches written to disk the recorded chain is not the chain of the same run without "
+                         "batches (%d states, %d expected)" % (chain.shape[1], ref_chain.shape[1]), ref_chain, chain)
+            continue
         import re as _re
         files = sorted(glob.glob(path + "batch_*.npz"),
                        key=lambda f: [int(t) if t.isdigit() else t for t in _re.split(r"(\d+)", os.path.basename(f))])
